@@ -66,7 +66,7 @@ def _arm(f, state):
     f.value = value
 
 
-TEXT = 'Unit #7 ; rear (B) = x: y'
+TEXT = 'Unit #7 ; rear (B) = x: y 100%% z'
 
 
 class _Adv(object):
@@ -129,7 +129,8 @@ def read_ini(path):
     cp = configparser.ConfigParser()
     with open(path) as fh:
         cp.read_file(fh)
-    return {f'{sec}.{k}': v for sec in cp.sections() for k, v in cp[sec].items()}
+    # raw: what the file holds, not what '%%' stands for
+    return {f'{sec}.{k}': v for sec in cp.sections() for k, v in cp.items(sec, raw=True)}
 
 
 def session(year, base, start, k, kind, halfset=None):
